@@ -160,6 +160,7 @@ func (ot OctTree) ClosestPoint(v vector3.Float64) (int, vector3.Float64) {
 				})
 			}
 			for _, element := range item.cell.elements {
+				element := element
 				point := element.primitive.ClosestPoint(v)
 
 				heap.Push(&pq, octDistItem{
